@@ -9,10 +9,12 @@ namespace FeatModel.C11
 def Chart.ctorOk : Chart → Prop
   | .circle r _ _ _ => 0 < r
   | .sphere r _ _ _ => 0 < r
+  | .bezier _ _ _ _ => True       -- the Bezier constructor asserts nothing about a radius
 
 def Chart.radius : Chart → Rat
   | .circle r _ _ _ => r
   | .sphere r _ _ _ => r
+  | .bezier _ _ _ _ => 1          -- no radius (never produced by the Circle / Sphere parsers)
 
 theorem radiusMin_pos : 0 < radiusMin := by
   unfold radiusMin
@@ -59,7 +61,10 @@ theorem sphereCreate_radius {line : Nat} {m : Markup} {c : Chart}
 theorem ctorOk_of_radius {c : Chart} (h : ¬ c.radius < radiusMin) : c.ctorOk := by
   have hp := radiusMin_pos
   have : radiusMin ≤ c.radius := Rat.not_lt.mp h
-  cases c <;> exact Std.lt_of_lt_of_le hp this
+  cases c with
+  | circle => exact Std.lt_of_lt_of_le hp this
+  | sphere => exact Std.lt_of_lt_of_le hp this
+  | bezier => trivial
 
 /-- acceptance by the Circle parser implies the constructor's precondition: the XASSERT is unreachable -/
 theorem circleCreate_ctorOk {line : Nat} {m : Markup} {c : Chart} {deg : Bool}
